@@ -87,6 +87,8 @@ def edited_healthy_equal_fresh(h, design_for_fresh, built, dname, offending, tal
     from ..build import build
 
     tally.update(edited=0, refused=0)
+    if offending == LEAF[dname]:
+        return None  # the edit instantiates the leaf cell: with the leaf itself at fault, the edited module would contain it
     for mname in list(design_for_fresh["modules"])[::-1]:
         if mname == LEAF[dname] or contains(design_for_fresh, mname, offending):
             continue
@@ -169,6 +171,52 @@ def _bomb(item):
             return ("bad", r) if r else ("ok", None)
     finally:
         h.reset_elaborator()
+    return ("ok", None)
+
+
+def _subclass_fault(item):
+    """The fault sits in a *subclass* of one of the default passes, used in its place: the pass does its rewriting of the
+    victim module and then raises.  Afterwards, with the default elaborator back in place, nothing that contains the victim
+    may be exported (it is half-rewritten) unless the package equals that of a fresh build; healthy modules are as fresh."""
+    import hdl21 as h
+    from hdl21.elab import Elaborator
+    from ..build import build
+
+    dname, top, pos, victim = item
+    design = dags.DAGS[dname]()
+    built = build(design)
+    vmod = built.modules[victim]
+    default = Elaborator.default().passes
+    Base = default[pos]
+
+    class Faulty(Base):
+        def elaborate_module(self, module):
+            rv = super().elaborate_module(module)
+            if module is vmod:
+                raise RuntimeError(f"injected fault in {Base.__name__} on {module.name}")
+            return rv
+
+    h.set_elaborator(Elaborator(passes=default[:pos] + [Faulty] + default[pos + 1:]))
+    try:
+        try:
+            h.elaborate(built.modules[top])
+            return ("no_failure", None)
+        except RuntimeError as e:
+            if "injected fault" not in short_exc(e):
+                return ("ok", "failed earlier: " + short_exc(e)[:40])  # e.g. a later check pass missing its predecessor: not our scenario
+    finally:
+        h.reset_elaborator()
+    fresh = fresh_packages(dname)
+    for m in list(design["modules"])[::-1]:
+        try:
+            got = h.to_proto(built.modules[m]).SerializeToString(deterministic=True)
+        except Exception:
+            if not contains(design, m, victim):
+                return ("bad", f"healthy module {m} cannot be exported after a fault in a replaced {Base.__name__}")
+            continue
+        if got != fresh[m]:
+            what = "contains the half-rewritten" if contains(design, m, victim) else "does not even contain the faulty"
+            return ("bad", f"after a fault in a replaced {Base.__name__} on {victim}, {m} ({what} module) is exported differently from a fresh build")
     return ("ok", None)
 
 
@@ -461,7 +509,7 @@ def run(ctx):
         design = dags.DAGS[dname]()
         for top in tops:
             victims = [m for m in design["modules"] if contains(design, top, m)]
-            for pos in range(11):
+            for pos in range(10):  # before each of the ten default passes (a pass placed after the final marking pass visits nothing)
                 for v in victims:
                     for cont in ("retry", "disarm_retry", "others", "others_parents_first", "edit_healthy"):
                         items.append((dname, top, pos, v, cont))
@@ -477,6 +525,23 @@ def run(ctx):
             ctx.violation(dict(fault="injected", position=it[2], continuation=it[4], what=detail[:50]), dict(kind="injected", item=list(it)), detail)
         elif status in ("no_failure", "other_failure"):
             ctx.violation(dict(fault="injected", position=it[2], continuation="-", what="harness: fault did not fire"), dict(kind="injected", item=list(it)), str(detail))
+    # faults inside a subclass that replaces one of the default passes
+    sitems = []
+    for dname, tops in (("dag1", ["T"]), ("dag2", ["P"])):
+        design = dags.DAGS[dname]()
+        for top in tops:
+            for pos in range(10):
+                for v in [m for m in design["modules"] if contains(design, top, m)]:
+                    sitems.append((dname, top, pos, v))
+    res = ctx.pmap(_subclass_fault, sitems, chunk=10)
+    for it, (status, detail) in zip(sitems, res):
+        ctx.count(states=1, transitions=3, traces_validated_against_impl=1)
+        ctx.fam("subclassed_pass", **{status: 1})
+        ctx.outcome("subclass:" + status + ":" + str(detail)[:16])
+        if status == "bad":
+            ctx.violation(dict(fault="subclassed_pass", position=it[2], continuation="export_all", what=detail[:50]), dict(kind="subclass", item=list(it)), detail)
+        elif status == "no_failure":
+            ctx.violation(dict(fault="subclassed_pass", position=it[2], continuation="-", what="harness: fault did not fire"), dict(kind="subclass", item=list(it)), str(detail))
     # real faults
     ritems = []
     for dname, tops in (("dag1", ["T", "T2"]), ("dag2", ["P", "Q"])):
@@ -526,6 +591,10 @@ def run(ctx):
 
 def replay(body):
     c = body["case"]
+    if c["kind"] == "subclass":
+        r = _subclass_fault(tuple(c["item"]))
+        print("replay:", r)
+        return 1 if r[0] == "bad" else 0
     if c["kind"] == "gen_special":
         r = _gen_special(c["item"])
         print("replay:", r)
